@@ -11,6 +11,7 @@ import (
 	"strconv"
 	"strings"
 	"time"
+	"unicode/utf8"
 
 	internal "github.com/influxdata/influxql/internal"
 	"google.golang.org/protobuf/proto"
@@ -1587,6 +1588,13 @@ func matchRegex(re *syntax.Regexp) ([]string, bool) {
 
 	switch re.Op {
 	case syntax.OpLiteral:
+		// A surrogate has no string form: it would be written as U+FFFD,
+		// which the regex does not match.
+		for _, r := range re.Rune {
+			if !utf8.ValidRune(r) {
+				return nil, false
+			}
+		}
 		// We can rewrite this regex.
 		return []string{string(re.Rune)}, true
 	case syntax.OpCapture:
@@ -1649,6 +1657,9 @@ func matchRegex(re *syntax.Regexp) ([]string, bool) {
 		names := make([]string, 0, sz)
 		for i := 0; i < len(re.Rune); i += 2 {
 			for r := int(re.Rune[i]); r <= int(re.Rune[i+1]); r++ {
+				if !utf8.ValidRune(rune(r)) {
+					return nil, false
+				}
 				names = append(names, string([]rune{rune(r)}))
 			}
 		}
